@@ -60,7 +60,9 @@ func (c18) Run(c *fw.Ctx) {
 	r := c.Rng
 	dir := c.TmpDir()
 	l := cliLayout(r)
-	remote := c.Index%8 == 5 // through the single-threaded server with delayed socket writes, other clients active
+	// through the single-threaded server with delayed socket writes, other clients active (thorough: the first 500 such
+	// cases, then every 10th of them - each costs seconds)
+	remote := c.Index%8 == 5 && (c.Index < 4000 || c.Index%80 == 5)
 	if remote {
 		l = model.Layout{Archs: []model.Arch{{Step: 1, Points: uint32(1500 + r.Intn(2500))}, {Step: 60, Points: uint32(100 + r.Intn(300))}}, Method: 1 + r.Intn(6)}
 	}
